@@ -362,3 +362,32 @@ def define_text(tname, fields, rnd, version=None):
 def payload_text(pairs):
     """pairs: [(key, json source text)] -> object source text"""
     return "{" + ", ".join(f"{json.dumps(k)}: {t}" for k, t in pairs) + "}"
+
+
+DRAIN = [{"op": "sleep", "ms": 60}, {"op": "wal_drain"}, {"op": "wal_drain"}]
+
+
+def wal_lines(obs):
+    """Number of WAL lines on disk reported by the last wal_drain of a lifetime (None if there was none)."""
+    n = None
+    for o in obs:
+        if o.get("op") == "wal_drain":
+            n = o.get("lines")
+    return n
+
+
+def cap_violations(chk, limit=40):
+    """Keep a mass failure from writing thousands of replay files: after `limit` violations only count them."""
+    orig = chk.violation
+
+    def capped(what, replay_obj):
+        if len(chk.violations) < limit:
+            orig(what, replay_obj)
+        else:
+            chk.violations.append((what, "not written"))
+            chk.cov["violations_without_replay_file"] = chk.cov.get("violations_without_replay_file", 0) + 1
+    chk.violation = capped
+
+
+def drop_root(root):
+    shutil.rmtree(root, ignore_errors=True)
